@@ -342,6 +342,21 @@ func (w *World) Run(m *Msg, fault []int) (*Exec, *spec.Verdict) {
 	inLen := uint64(len(m.Data) + stateBytes(ex.Pre, m.Snd, m.Rcv))
 	bound := uint64(1<<20) + 256*inLen + 4*inLen*inLen
 	if ex.Alloc > bound {
+		// confirm with an exact measurement of the same call from the same pre-state
+		post := nd.Store.Accts
+		nd.Store.Accts = ex.Pre.Clone()
+		ExactAlloc = true
+		cp := *m
+		ex2 := nd.Execute(&cp, -1, 0)
+		ExactAlloc = false
+		nd.Store.Accts = post
+		_, _ = nd.Store.Commit()
+		w.Stats.Probes["allocation-remeasured"]++
+		if ex2.Alloc <= bound {
+			ex.Alloc = ex2.Alloc
+		}
+	}
+	if ex.Alloc > bound {
 		w.violate(spec.Violation{Props: spec.P("C11"), Clause: "allocation", Detail: fmt.Sprintf("%s allocated %d bytes for an input of %d bytes (bound %d): data %q", ex.Func, ex.Alloc, len(m.Data), bound, m.Data)})
 	}
 	// a dependency failed during the call: it must not be reported as success (C17)
